@@ -18,7 +18,8 @@ META = {
             "caller overwriting between any two calls every buffer it passed in or was given - contents and results "
             "depend on the history of calls alone, for the copy points extracted from mem_entry.go. Several handles "
             "over the tables of one database (pisces.Tables) with the table life cycle refine per-table reference "
-            "maps; calls leave other tables alone; a table used through several handles is one store. Models are "
+            "maps; calls leave other tables alone; a table used through several handles is one store; a walk releases "
+            "its result set however it ends. Models are "
             "tied to the code by statement tables, the table scheme and the copy-point skeleton re-extracted from the "
             "Go source on every run and by differential histories on the real memory and sqlite backends "
             "evaluated inside Coq.",
@@ -729,7 +730,8 @@ def run(ck):
                  "modelled not verified: SQLite statement semantics, BINARY collation, NOT NULL / UNIQUE; Go map and sort; "
                  "bytes.Buffer (Write copies, NewBuffer adopts) and the sqlite driver copying bound and scanned []byte",
                  "psql_kv.go only through its generated statement table (PostgreSQL cannot run here)"],
-        rule="fixed corpora first (known disagreements, window edges, classes/values/key limits, callback shapes, all "
+        rule="fixed corpora first (known disagreements, window edges, classes/values/key limits, callback shapes, walks "
+             "that end early followed by every writer, all "
              "ordered pairs of 13 writers x 20 readers, value sizes around 64 B / 256 B / 4 KiB / 64 KiB / 1 MiB / 3 MiB, "
              "multi-handle life cycle), then generated multi-handle histories (2-4 handles over 1-4 tables of one "
              "file or of memory table sets, life cycle calls sprinkled in) and "
